@@ -531,9 +531,9 @@ struct Scenario {
         if (addr_kind && p.qtype != 1 && p.qtype != 28) fail(r, "C08.hit-for-different-type", ctx);
         if (p.tc) fail(r, "C08.truncated-reply-replayed", ctx);
         if ((p.rcode & 0xfff) != 0 && (p.rcode & 0xfff) != 3) fail(r, "C08.error-rcode-replayed", ctx + " rcode " + std::to_string(p.rcode));
-        if (!accepted_at.count(ser)) { r.counters["c08.hit_without_known_insert"]++; continue; }
-        int64_t tins = accepted_at[ser];
-        for (uint64_t rt : S.reconfig_ticks) if (rt > accepted_tick[ser] && rt < q.tick_start) fail(r, "C08.hit-across-reconfiguration", ctx + "; the server list was changed / the channel re-initialised in between");
+        // insertion instant = the instant the reply was read from the socket (it is processed within the same call); the accepting request may complete later (getaddrinfo waits for both families)
+        int64_t tins; { bool have = false; for (auto &d : w.delivered) if (d.serial == ser) { tins = d.t; have = true; break; } if (!have) { if (!accepted_at.count(ser)) { r.counters["c08.hit_without_known_insert"]++; continue; } tins = accepted_at[ser]; } }
+        if (accepted_at.count(ser)) for (uint64_t rt : S.reconfig_ticks) if (rt > accepted_tick[ser] && rt < q.tick_start) fail(r, "C08.hit-across-reconfiguration", ctx + "; the server list was changed / the channel re-initialised in between");
         int64_t age_sec = q.t_start / 1000000 - tins / 1000000;
         // lifetime its own TTLs allow
         int64_t life;
